@@ -152,6 +152,7 @@ def len_program(cases):
     return {"src": src}, exp, ks
 
 
+SIZE_LABELS = ["sizeof", "sizeof-array-of-3", "sizeof-word", "sizeof-array-of-3-words", "sizeof-underfilled-word", "sizeof-array-of-3-underfilled-words"]
 PRELUDE_TYPES = "struct P8\n{\na: u8,\nx: i32,\n}\nword16 W2\n{\na: u8,\nb: u8,\n}\n"
 
 
@@ -169,11 +170,22 @@ def size_programs(cases):
             # the alignment of word members is undocumented: both layouts are accepted (alternatives joined by "|")
             alts = sorted(set([c["size"], c["size2"]]))
             want = ["|".join(str(x) for x in alts), "|".join(str(3 * x) for x in alts)]
-            # a word of exactly that size, when the members are allowed in words
+            # words over the same members, when the members are allowed in words.  A word occupies the storage of
+            # its members (the typer only demands that they fit into the declared width), so `|:W|` is the same
+            # layout size as for the structure, for an exactly declared word and for an under-filled one alike;
+            # and `|:[3]W|` = 3 * `|:W|`.
             if c["size"] in (1, 2, 4, 8, 16) and c["ms"] and all(t in ("i8", "i16", "i32", "i64", "i128", "u8", "bool", "W2") for t in c["ms"]):
                 decls.append("word%d V%d\n{\n%s}" % (8 * c["size"], k, members))
                 body.append('print!(|:V%d|, "\\n");' % k)
-                want.append(str(c["size"]))
+                body.append('print!(|:[3]V%d|, "\\n");' % k)
+                want.append(want[0])
+                want.append(want[1])
+                if c["size"] < 16:
+                    decls.append("word128 U%d\n{\n%s}" % (k, members))
+                    body.append('print!(|:U%d|, "\\n");' % k)
+                    body.append('print!(|:[3]U%d|, "\\n");' % k)
+                    want.append(want[0])
+                    want.append(want[1])
             exp.append(want)
             ks.append("size {" + ", ".join(c["ms"]) + "}")
         src = "\n".join(decls) + "\nfn main() -> u8\n{\n" + "\n".join(body) + "\nreturn: 0u8\n}\n"
@@ -223,6 +235,9 @@ def compare(rep, kind, programs, results, expected, keys, labels):
             got = units.get(k)
             checked += 1
             ok = got is not None and len(got) == len(want) and all(g in w.split("|") for g, w in zip(got, want))
+            if ok and kind == "size":
+                # whichever alternative the compiler uses, `|:[3]T|` = 3 * `|:T|` (the property's own equation)
+                ok = all(int(got[i + 1]) == 3 * int(got[i]) for i in range(0, len(got) - 1, 2))
             if not ok:
                 which = [labels[i] for i in range(min(len(want), len(got or []))) if got[i] not in want[i].split("|")] if got else ["missing"]
                 rep.violation(kind, "%s :: %s" % (key, "+".join(which) or "count"),
@@ -255,7 +270,7 @@ def run(rep, tier, seed, selftest):
     n2 = compare(rep, "len", lprogs, lres, lexp, lkeys, ["length", "sizeof-array"])
     sprogs, sexp, skeys = size_programs(sizes)
     sres = run_sources(sprogs, "C10-size")
-    n3 = compare(rep, "size", sprogs, sres, sexp, skeys, ["sizeof", "sizeof-array-of-3", "sizeof-word"])
+    n3 = compare(rep, "size", sprogs, sres, sexp, skeys, SIZE_LABELS)
     log("[replay] lengths: %d cases, %d comparisons; sizes: %d structures, %d comparisons" % (len(lens), n2, len(sizes), n3))
     selftests = {}
     if selftest or tier == "thorough":
@@ -265,7 +280,7 @@ def run(rep, tier, seed, selftest):
         with contextlib.redirect_stdout(io.StringIO()):
             bad = [[list(x) for x in sexp[0]]]
             bad[0][0][0] = str(int(bad[0][0][0]) + 1)
-            compare(probe, "size", sprogs[:1], sres[:1], bad, skeys[:1], ["sizeof", "sizeof-array-of-3", "sizeof-word"])
+            compare(probe, "size", sprogs[:1], sres[:1], bad, skeys[:1], SIZE_LABELS)
         selftests["corrupted_expectation_detected"] = len(probe.violations) == 1
         for f in probe.violations:
             if os.path.exists(f):
@@ -295,7 +310,7 @@ def run(rep, tier, seed, selftest):
         "decimal text <-> limbs conversion in Python is trusted",
         "cells with undefined behaviour (division by zero, MIN / -1, oversized shifts) are not compiled",
         "the layout rule (members in order, natural alignment capped at 8 bytes, total padded to the largest member alignment, "
-        "a word occupies its declared size) is read off the property, docs and tests/samples/valid/size_of_struct.pn",
+        "a word occupies the storage of its members, which must fit the declared width) is read off the property, docs and tests/samples/valid/size_of_struct.pn",
         "bitwise operators on usize are an unconstrained cell (docs silent, code rejects) and are not enumerated",
     ])
 
